@@ -88,7 +88,7 @@ def degenerate_reason(files) -> str | None:
                 elif c.tag == "switch":
                     acc.append(c)
                     for cc in c.children:
-                        if cc.tag == "case":
+                        if cc.tag == "case" and any(k.tag != "comment" for k in cc.children):
                             out.extend(bodies(cc))
                 else:
                     acc.append(c)
@@ -101,6 +101,10 @@ def degenerate_reason(files) -> str | None:
             if t.tag not in ("struct", "packet"):
                 continue
             for body in bodies(t):
+                if not [c for c in body if c.tag != "comment"]:
+                    # struct / packet / case made of nothing but (nested) empty <chunked/> sections, or of nothing:
+                    # the generated `try:` has no statement (real specifications use <dummy>)
+                    return "a class body that emits no statement"
                 lens = [c.get("name") for c in body if c.tag == "length"]
                 refs = [c.get("length") for c in body if c.tag in ("field", "array")]
                 for n in lens:
@@ -134,6 +138,10 @@ def open_case(ctx: Ctx, case: Case, prop: str, load=True):
         return False
     if not real_ok:
         return None
+    if prop in ("C02", "C16"):
+        # how much of what is explored lies inside the domain of the conformance theorem `ser_conforms`
+        wf = ctx.driver.ask1("gen wf").split()
+        ctx.count("ser_conforms_fragment." + ("inside" if wf[-2:] == ["fragment", "1"] else "outside"))
     return _load(ctx, case, prop) if load else True
 
 
